@@ -317,6 +317,16 @@ example :
         fun e => match e.out with | .none => none | o => some (e.actor, o)) =
       [(0, .mut .accepted), (2, .hit (some 1)), (1, .mut .rejected)] := by decide
 
+/-- K12f (OPEN finding, recorded): a direct call of the exported registrar-bridge method `Router.AddRouteToTree` /
+    `AddVersionRoute` after the first request is not rejected and the route is served. The goroutine kinds of the
+    model (`Kind`) contain no such call — every theorem above is the `¬D` half: for cases without a direct bridge call the
+    model meets the oracle. Witness of the as-is behaviour: -/
+theorem late_bridge_call_asis :
+    let c := servedOps.foldl Core.step Core.init
+    c.frozen = true ∧ lookup c 2 true = none ∧ bridgeProbeAsIs c 2 = (false, true) ∧
+    -- … whereas the guarded registration of the same route is rejected without effect
+    c.step (.register 2) = c := by decide
+
 open Rivaas.Reverse in
 /-- K12c: a static route with a trailing slash reversed to a path it does not match -/
 theorem urlfor_trailing_slash_asis :
